@@ -116,7 +116,7 @@ def cases(tier, seed):
     # dominated by exactly one stored entry, that dominates a block of entries, or that is new - in lock step with the reference set
     for kind in ["Objective", "Lagrangian"]:
         for api in ["update", "filter_insert"]:
-            for N in ((40, 300, 1500, 3000) if tier == "quick" else (40, 300, 1500, 3000, 6000, 12000)):
+            for N in ((40, 300, 1500, 3000) if tier == "quick" else (40, 300, 1500, 3000, 6000)):
                 for order in ("asc", "desc", "inside_out"):
                     out.append({"kind": kind, "api": api, "chain": N, "order": order, "rho0": 1.0 if api == "filter_insert" else 1e-300})
     # the same with working precision Single and coordinates (Python floats, as a user objective returns them) that differ by less than the
